@@ -139,6 +139,24 @@ func (e *Eval) Prepare(flags ...[]byte) error {
 	}
 
 	//
+	// Jump-targets and constant-indexes are stored as 16-bit
+	// operands, so a program (or a function-body) which is longer
+	// than that, or which needs more constants, cannot be encoded:
+	// the operands would be silently truncated.
+	//
+	if len(e.constants) > 65536 {
+		return fmt.Errorf("the script is too large: %d constants, at most 65536 are supported", len(e.constants))
+	}
+	if len(e.instructions) > 65535 {
+		return fmt.Errorf("the script is too large: %d bytes of bytecode, at most 65535 are supported", len(e.instructions))
+	}
+	for name, fun := range e.functions {
+		if len(fun.Bytecode) > 65535 {
+			return fmt.Errorf("the function %s is too large: %d bytes of bytecode, at most 65535 are supported", name, len(fun.Bytecode))
+		}
+	}
+
+	//
 	// If we've got the optimizer enabled then set the environment
 	// variable, so that the virtual machine knows it should
 	// run a series of optimizations.
